@@ -53,6 +53,13 @@ func runC15(c *Ctx) {
 				c.Obligs = append(c.Obligs, Oblig{Rule: "R-QUOTE-TYPESTATE", Construct: c.uniq("R-QUOTE-TYPESTATE", "shell tokenizer model:class table covers every byte"), Pos: o.Pos, Verdict: "violated", Config: c.P.Config,
 					Msg: "Quote copies bytes ≥ 0x80 through unchanged, and Split cannot read them back: " + o.Msg})
 			}
+			// the interpreter does not do what the table says (an arm writes something other than the byte):
+			// Split cannot give back what Join wrote
+			if o.Rule == "R-FST-INTERP" && o.Verdict == "violated" && !o.Canary {
+				short = true
+				c.Obligs = append(c.Obligs, Oblig{Rule: "R-QUOTE-TYPESTATE", Construct: c.uniq("R-QUOTE-TYPESTATE", "shell tokenizer model:"+o.Construct), Pos: o.Pos, Verdict: "violated", Config: c.P.Config,
+					Msg: "Split's interpreter is not the transducer its tables describe, so it cannot read back what Quote and Join write: " + o.Msg})
+			}
 		}
 		if !short {
 			c.undecided("R-QUOTE-TYPESTATE", "shell tokenizer model", 0, "the package tokenizer could not be extracted (see C16): composition with Split not possible")
@@ -150,7 +157,7 @@ func runC15(c *Ctx) {
 		totalStates += len(q.seen)
 		totalSteps += q.steps
 		switch {
-		case q.overflow:
+		case q.overflow && len(q.problems) == 0:
 			c.undecided("R-QUOTE-TYPESTATE", key, r.fn.Pos(), "state space too large")
 		case len(q.problems) == 0:
 			c.ok("R-QUOTE-TYPESTATE", key, r.fn.Pos(), fmt.Sprintf("%d abstract states explored, no violation", len(q.seen)))
@@ -168,6 +175,9 @@ func runC15(c *Ctx) {
 			}
 			if len(msgs) > 6 {
 				msgs = append(msgs[:6], fmt.Sprintf("… and %d more", len(msgs)-6))
+			}
+			if q.overflow {
+				msgs = append(msgs, "(the exploration stopped at its step limit: the violations above come from the part explored)")
 			}
 			c.bad("R-QUOTE-TYPESTATE", key, pos, strings.Join(msgs, "; "))
 		}
